@@ -258,6 +258,9 @@ class ExcelInPython:
 
     def _match(self, lookup_value, lookup_array: List, match_type: int = 0):
         lookup_value_type = int if isinstance(lookup_value, self.EmptyCell) else type(lookup_value)
+        if lookup_value_type in (int, float):
+            # 2.5 must be comparable with the integer keys 1, 2, 3
+            lookup_value_type = (int, float)
 
         match match_type:
             case 0:
